@@ -200,7 +200,7 @@ pub fn random_cfg(rng: &mut Rng, k: &Known) -> Cfg {
 
 // ---------------------------------------------------------------- PCM shapes
 /// PCM kinds beyond `vharness::PCM_KINDS`
-pub const EXTRA_KINDS: &[&str] = &["min_adjacent", "steps", "outliers", "alt_small", "stereo_equal", "stereo_opposite", "lpc_friendly", "impulse", "small", "poly"];
+pub const EXTRA_KINDS: &[&str] = &["min_adjacent", "steps", "outliers", "alt_small", "stereo_equal", "stereo_opposite", "lpc_friendly", "impulse", "small", "poly", "wrap_saw"];
 
 pub fn all_kinds() -> Vec<&'static str> {
     let mut v: Vec<&'static str> = PCM_KINDS.to_vec();
@@ -242,6 +242,16 @@ pub fn gen_pcm_ext(rng: &mut Rng, kind: &str, ch: usize, bps: u32, frames: usize
                     let t = i as i64;
                     let (a, b, c0) = ((base % 5) - 2, (base % 7) - 3, base % 23 - 11);
                     a * t * t + b * t + c0 + rng.range(-1, 1)
+                }
+                // a ramp (plus a little curvature) that wraps around at the full width of the depth, like an
+                // overflowing counter: a linear predictor extrapolates past the range exactly where the
+                // signal jumps to the other end
+                "wrap_saw" => {
+                    let span = 1i64 << bps;
+                    let d = (base.abs() % (span / 16).max(1)) + span / 64 + 1;
+                    let t = i as i64;
+                    let raw = base + d * t + (t * t) * ((base % 3) - 1);
+                    (raw - min).rem_euclid(span) + min
                 }
                 _ => 0,
             };
